@@ -581,13 +581,13 @@ def rects(el):
         yield (el["center"][0] - r, el["center"][1] - r), (2 * r, 2 * r)
 
 
-def shifted(a, b, v) -> bool:
+def shifted(a, b, v, eps=EPS) -> bool:
     """element b is element a moved by exactly v (sizes, flags, structure unchanged)"""
     def pt(p, q):
-        return abs(q[0] - p[0] - v[0]) <= EPS and abs(q[1] - p[1] - v[1]) <= EPS
+        return abs(q[0] - p[0] - v[0]) <= eps and abs(q[1] - p[1] - v[1]) <= eps
 
     def sz(p, q):
-        return abs(q[0] - p[0]) <= EPS and abs(q[1] - p[1]) <= EPS
+        return abs(q[0] - p[0]) <= eps and abs(q[1] - p[1]) <= eps
 
     def bx(x, y):
         return (x["uuid"] == y["uuid"] and pt(x["pos"], y["pos"]) and sz(x["size"], y["size"]) and x["hidden"] == y["hidden"]
@@ -602,14 +602,14 @@ def shifted(a, b, v) -> bool:
     return pt(a["center"], b["center"]) and a["radius"] == b["radius"]
 
 
-def soundness(chk, mname, dname, snap, routing, stats, prefix="diagram", context=None, where=""):
+def soundness(chk, mname, dname, snap, routing, stats, prefix="diagram", context=None, where="", eps=EPS):
     """finite coordinates, edge ends on outlines, ports on borders, viewport encloses; -> number of violations"""
     nviol = [0]
 
     def viol(kind, what, extra):
         nviol[0] += 1
         chk.violation(f"{prefix}:{kind}:{mname}:{dname}", f"{mname} {dname!r}{where}: {what}",
-                      dict(extra, model=mname, diagram=dname, **(context or {})))
+                      {**extra, "model": mname, "diagram": dname, **(context or {})})
     vp = snap["viewport"]
     for el in snap["elements"]:
         if not all(finite(x) for x in numbers(el)):
@@ -625,16 +625,16 @@ def soundness(chk, mname, dname, snap, routing, stats, prefix="diagram", context
                 stats["ends"] = stats.get("ends", 0) + 1
                 pos, size, _port = bx
                 if style == "tree":
-                    ok = (abs(pt[1] - pos[1]) <= EPS or abs(pt[1] - (pos[1] + size[1])) <= EPS)
+                    ok = (abs(pt[1] - pos[1]) <= eps or abs(pt[1] - (pos[1] + size[1])) <= eps)
                 else:
-                    ok = on_outline(pt, pos, size)
+                    ok = on_outline(pt, pos, size, eps)
                 if not ok:
                     viol("edge-end-off-outline", f"{style} edge {el['uuid']}: {endname} end {pt} is not on the outline of box {pos},{size}",
                          {"edge": el["uuid"], "end": endname, "point": pt, "box": [pos, size], "routing": style})
         if el["k"] == "B" and el["port"] and el["parent"] is not None:
             stats["ports"] = stats.get("ports", 0) + 1
             ppos, psize = el["parent"]
-            if not rect_touches_outline(el["pos"], el["size"], ppos, psize):
+            if not rect_touches_outline(el["pos"], el["size"], ppos, psize, eps):
                 viol("port-off-border", f"port {el['uuid']} at {el['pos']},{el['size']} does not touch the border of its parent {ppos},{psize}",
                      {"port": el["uuid"], "pos": el["pos"], "size": el["size"], "parent": [ppos, psize]})
         if not el["hidden"]:
@@ -642,8 +642,8 @@ def soundness(chk, mname, dname, snap, routing, stats, prefix="diagram", context
                 viol("viewport", "no finite viewport", {"viewport": vp})
                 continue
             for rpos, rsize in rects(el):
-                if not (vp[0][0] <= rpos[0] + EPS and vp[0][1] <= rpos[1] + EPS
-                        and rpos[0] + rsize[0] <= vp[0][0] + vp[1][0] + EPS and rpos[1] + rsize[1] <= vp[0][1] + vp[1][1] + EPS):
+                if not (vp[0][0] <= rpos[0] + eps and vp[0][1] <= rpos[1] + eps
+                        and rpos[0] + rsize[0] <= vp[0][0] + vp[1][0] + eps and rpos[1] + rsize[1] <= vp[0][1] + vp[1][1] + eps):
                     viol("viewport", f"visible element {el['uuid']} ({rpos},{rsize}) is outside the viewport {vp}",
                          {"element": el["uuid"], "rect": [rpos, rsize], "viewport": vp})
                     break
@@ -779,17 +779,305 @@ def perturbation_offsets(snap, dinfo):
     return [(k, v, why) for _, k, v, why in out]
 
 
-def run_perturbed(chk, D, capellambse, mname, aird, kw, dinfos, routing, stats):
-    """Move single top-level nodes of the stored layout (in memory, on the scratch copy at `aird`) by the offsets of
-    perturbation_offsets and parse again: the parse must succeed, stay geometrically sound, leave unrelated elements
-    alone and move the node by exactly the displacement."""
+# ------------------------------------------------------------------ translations that put the ORIGIN on the diagram's features
+FEATURE_KINDS = ("edge end", "stored edge end", "bend point", "box corner", "box centre", "port position", "label position")
+
+
+def observe_snaps(D, fn):
+    """Run fn() and return (its result or the exception it raised, the Box.vector_snap calls made meanwhile).
+    The calls are only observed, not altered."""
+    calls = []
+    orig = D.Box.vector_snap
+
+    def rec(self, point, *, source=None, style=D.RoutingStyle.OBLIQUE):
+        calls.append({"box": self.uuid, "pos": tuple(self.pos), "size": tuple(self.size), "point": tuple(point),
+                      "source": tuple(source) if source is not None else None, "style": style.name.lower()})
+        return orig(self, point, source=source, style=style)
+    D.Box.vector_snap = rec
+    try:
+        try:
+            res = fn()
+        except Exception as e:  # noqa: BLE001
+            res = e
+    finally:
+        D.Box.vector_snap = orig
+    return res, calls
+
+
+def rounding_call_style(calls, box_uuids, scale=1.0):
+    """routing style of an observed snap call ON ONE OF THE GIVEN BOXES whose point misses a border line of the box by a
+    rounding error (0 < distance <= 1e-9, scaled with the magnitude of the coordinates), or None"""
+    for c in calls:
+        if c["box"] not in box_uuids or not finite(*c["pos"], *c["size"], *c["point"]):
+            continue
+        pos, size, pt = c["pos"], c["size"], c["point"]
+        for dist in (pt[0] - pos[0], pt[0] - (pos[0] + size[0]), pt[1] - pos[1], pt[1] - (pos[1] + size[1])):
+            if 0 < abs(dist) <= 1e-9 * scale:
+                return c["style"]
+    return None
+
+
+def diagram_features(snap, calls):
+    """kind -> points of the diagram at rest (parsed picture + the points the parser handed to the snapping code)"""
+    feats: dict[str, list] = {k: [] for k in FEATURE_KINDS}
+
+    def label(b):
+        feats["label position"].append(b["pos"])
+        feats["label position"].append((b["pos"][0] + b["size"][0] / 2, b["pos"][1] + b["size"][1] / 2))
+
+    for el in snap["elements"]:
+        if not all(finite(x) for x in numbers(el)):
+            continue
+        if el["k"] == "B":
+            feats["box corner"] += box_corners(el["pos"], el["size"])
+            centre = (el["pos"][0] + el["size"][0] / 2, el["pos"][1] + el["size"][1] / 2)
+            feats["box centre"].append(centre)
+            if el["port"]:
+                feats["port position"] += [el["pos"], centre]
+            for lb in el["labels"]:
+                label(lb)
+        elif el["k"] == "E":
+            pts = el["points"]
+            if pts:
+                feats["edge end"] += [pts[0], pts[-1]]
+                feats["bend point"] += pts[1:-1]
+            for lb in el["labels"]:
+                label(lb)
+        else:
+            feats["box centre"].append(el["center"])
+    for c in calls:
+        if finite(*c["point"]):
+            feats["stored edge end"].append(c["point"])
+        if c["source"] is not None and finite(*c["source"]) and c["source"] != c["point"]:
+            feats["bend point"].append(c["source"])
+    return {k: sorted(set(v)) for k, v in feats.items()}
+
+
+def origin_offsets(feats, viewport, rng, budget, min_edge_ends=16):
+    """Integer translation vectors that make the parsed result depend on ABSOLUTE coordinates if anything does:
+    offset = -feature + small, so that the coordinate origin lands on / next to (|d| <= 1, i.e. +-1 and the +-0.5 of a
+    non-integer feature) / a few pixels beside every kind of feature; offsets that put a feature on ONE axis only;
+    very large offsets; sign flips (the whole diagram in the negative quadrant, negative in one coordinate only, centred
+    on the origin).  -> list of (vector, reason): the global ones, `min_edge_ends` origin-at-an-edge-end ones, and a
+    seeded round-robin sample over (kind, mode) of the rest up to `budget`; each as (vector, mode, feature kind, reason)."""
+    out, seen = [], {(0, 0)}
+
+    def take(v, mode, kind=None, f=None):
+        v = (int(v[0]), int(v[1]))
+        if v in seen:
+            return False
+        seen.add(v)
+        out.append((v, mode, kind, mode if kind is None else f"{mode} {kind} {f}"))
+        return True
+
+    # ---- global ones
+    big = 1000000
+    for v in ((big, big), (-big, -big), (big, -big), (-big, big), (big, 0), (0, -big)):
+        take(v, "very large offset")
+    if viewport is not None and finite(*viewport[0], *viewport[1]):
+        (x0, y0), (w, h) = viewport
+        x1, y1 = x0 + w, y0 + h
+        m = rng.randint(1, 40)
+        take((-math.ceil(x1) - m, -math.ceil(y1) - m), "sign flip: whole diagram in the negative quadrant")
+        take((-math.ceil(x1) - m, 0), "sign flip: all x negative")
+        take((0, -math.ceil(y1) - m), "sign flip: all y negative")
+        take((-math.ceil(x1), -math.ceil(y1)), "sign flip: diagram touches both axes from the negative side")
+        take((-math.floor(x0), -math.floor(y0)), "diagram touches both axes from the positive side")
+        take((-round(x0 + w / 2), -round(y0 + h / 2)), "sign flip: diagram centred on the origin")
+        take((-big - math.ceil(x1), -big - math.ceil(y1)), "sign flip + very large offset")
+
+    # ---- per feature
+    def on(f):       # the origin on the feature (within 0.5 in each coordinate for a non-integer one)
+        return [(vx, vy) for vx in {math.floor(-f[0]), math.ceil(-f[0])} for vy in {math.floor(-f[1]), math.ceil(-f[1])}]
+
+    def beside(f):   # the origin within +-1 of the feature
+        base = (round(-f[0]), round(-f[1]))
+        return [(base[0] + dx, base[1] + dy) for dx in (-1, 0, 1) for dy in (-1, 0, 1) if (dx, dy) != (0, 0)]
+
+    def ring(f):     # a few pixels away, all directions
+        base = (round(-f[0]), round(-f[1]))
+        res = []
+        for _ in range(6):
+            dx, dy = rng.randint(-7, 7), rng.randint(-7, 7)
+            if max(abs(dx), abs(dy)) >= 2:
+                res.append((base[0] + dx, base[1] + dy))
+        return res
+
+    def axis_x(f):   # the feature on the y axis (x = 0) only
+        return [(vx, rng.choice((0, rng.randint(-3000, 3000)))) for vx in {math.floor(-f[0]), math.ceil(-f[0])}]
+
+    def axis_y(f):
+        return [(rng.choice((0, rng.randint(-3000, 3000))), vy) for vy in {math.floor(-f[1]), math.ceil(-f[1])}]
+
+    modes = (("origin on", on), ("origin within 1 of", beside), ("origin a few pixels beside", ring),
+             ("x = 0 through", axis_x), ("y = 0 through", axis_y))
+    # every diagram: the origin on / next to / beside edge ends, parsed and as stored
+    ends = [(k, f) for k in ("edge end", "stored edge end") for f in feats.get(k, [])]
+    rng.shuffle(ends)
+    n_before = len(out)
+    for rnd in range(4):
+        for k, f in ends:
+            if len(out) - n_before >= min_edge_ends:
+                break
+            name, fn = modes[rnd % 3]
+            cands = fn(f)
+            rng.shuffle(cands)
+            for v in cands[: (1 if rnd else 2)]:
+                take(v, name, k, f)
+    groups = []
+    for kind in FEATURE_KINDS:
+        fs = list(feats.get(kind, []))
+        if not fs:
+            continue
+        rng.shuffle(fs)
+        for name, fn in modes:
+            groups.append((kind, name, fn, fs, [0]))
+    rng.shuffle(groups)
+    progress = True
+    while len(out) < budget and progress:
+        progress = False
+        for kind, name, fn, fs, pos in groups:
+            if len(out) >= budget:
+                break
+            while pos[0] < len(fs):
+                f = fs[pos[0]]
+                pos[0] += 1
+                cands = fn(f)
+                rng.shuffle(cands)
+                if any(take(v, name, kind, f) for v in cands[:1]):
+                    progress = True
+                    break
+    return out
+
+
+def origin_tolerance(v) -> float:
+    """1e-6 for every offset up to 5000 (the range of the random translations); for larger ones the tolerance grows
+    linearly with the offset (binary floating point has a relative, not an absolute precision: 2e-4 at 1e6)"""
+    return EPS * max(1.0, max(abs(v[0]), abs(v[1])) / 5000)
+
+
+def run_origin_translations(chk, D, m, datas, mname, dinfos, routing, stats):
+    """Translate the stored layout of every diagram (in memory) by the vectors of origin_offsets and parse again: the
+    parse must succeed exactly when it does at rest, every element, label, bend point and the viewport must be the
+    at-rest one shifted by the vector, and the translated picture must be sound."""
     quick = chk.tier == "quick"
     rng = chk.rng
+    budget = 4500 if quick else 15000          # per model
+    per_diagram = max(40, min(400, budget // max(1, len(dinfos))))
+    modes = stats.setdefault("origin_offset_modes", {})
+    kinds = stats.setdefault("origin_offset_feature_kinds", {})
+    for d in m.diagrams:
+        duid = d._element.get("repPath", "#")[1:]
+        if duid not in dinfos or duid not in datas or not dinfos[duid]["tops"]:
+            continue
+        dname = d.name
+        d.invalidate_cache()
+        res, calls0 = observe_snaps(D, lambda: snapshot(D, d.render(None)))   # noqa: B023
+        if isinstance(res, Exception):         # (reported by the at-rest pass)
+            continue
+        snap = res
+        lcs = []
+        for ch in datas[duid].iterchildren("children"):
+            lc = next(ch.iterchildren("layoutConstraint"), None)
+            if lc is not None:
+                lcs.append((lc, lc.get("x"), lc.get("y")))
+
+        def parse_at(v, observe=False):
+            for lc, x, y in lcs:               # noqa: B023
+                lc.set("x", str(int(x or 0) + v[0]))
+                lc.set("y", str(int(y or 0) + v[1]))
+            d.invalidate_cache()               # noqa: B023
+            try:
+                if observe:
+                    return observe_snaps(D, lambda: snapshot(D, d.render(None)))   # noqa: B023
+                try:
+                    return snapshot(D, d.render(None)), None                        # noqa: B023
+                except Exception as e:  # noqa: BLE001
+                    return e, None
+            finally:
+                for lc, x, y in lcs:           # noqa: B023
+                    for name, val in (("x", x), ("y", y)):
+                        if val is None:
+                            lc.attrib.pop(name, None)
+                        else:
+                            lc.set(name, val)
+                d.invalidate_cache()           # noqa: B023
+
+        feats = diagram_features(snap, calls0)
+        todo = origin_offsets(feats, snap["viewport"], rng, per_diagram)
+        stats["origin_diagrams"] = stats.get("origin_diagrams", 0) + 1
+        n_end = 0
+        for v, mode, kind, why in todo:
+            nres, _ = parse_at(v)
+            stats["origin_translations"] = stats.get("origin_translations", 0) + 1
+            mode = mode.split(":")[0]
+            modes[mode] = modes.get(mode, 0) + 1
+            if kind is not None:
+                kinds[kind] = kinds.get(kind, 0) + 1
+            n_end += kind in ("edge end", "stored edge end") and mode.startswith("origin")
+            chk.note_case(("origin-translate", mname, duid, v))
+            replay = {"model": mname, "diagram": dname, "diagram_uid": duid, "translation": v, "derived_from": why}
+            if isinstance(nres, Exception):
+                cls = crash_class(nres)
+                stats["crash_classes"][cls] = stats["crash_classes"].get(cls, 0) + 1
+                key = ("diagram-translate:oblique-corner-rounding" if cls == "oblique-corner-rounding"
+                       else f"diagram-origin:crash:{cls}:{mname}:{dname}")
+                chk.violation(key, f"{mname} {dname!r}: parses at the stored position, but translated by {v} ({why}) it fails "
+                                   f"({type(nres).__name__}: {str(nres)[:200]})",
+                              dict(replay, error=[type(nres).__name__, cls, str(nres)[:200]]))
+                continue
+            nsnap = nres
+            a, b = snap["elements"], nsnap["elements"]
+            if len(a) != len(b):
+                chk.violation(f"diagram-origin:elements:{mname}:{dname}", f"{mname} {dname!r}: {len(a)} elements, translated by {v} ({why}): {len(b)}", replay)
+                continue
+            eps = origin_tolerance(v)
+            worst = max((abs(q - p - dv) for x, y in zip(a, b) if x["k"] == "E" and len(x["points"]) == len(y["points"])
+                         for pa, pb in zip(x["points"], y["points"]) for p, q, dv in zip(pa, pb, v)), default=0.0)
+            if worst <= eps:
+                slot = "max_deviation_large_offsets" if eps > EPS else "max_deviation_other_offsets"
+                stats[slot] = max(stats.get(slot, 0.0), worst)
+            for x, y in zip(a, b):
+                if not shifted(x, y, v, eps):
+                    # a stored edge end that lies exactly on a border line of the box it is attached to at one position
+                    # and a rounding error off it at the other takes a different branch of the snapping code
+                    style = None
+                    if x["k"] == "E":
+                        ends = {x["src_uuid"], x["tgt_uuid"]} - {None}
+                        _, calls1 = parse_at(v, observe=True)
+                        scale = max(1.0, max(abs(v[0]), abs(v[1])) / 5000)
+                        style = rounding_call_style(calls1, ends, scale) or rounding_call_style(calls0, ends)
+                    key = (f"diagram-translate:{style}-border-rounding" if style else f"diagram-origin:moved:{mname}:{dname}")
+                    stats["crash_classes"][key] = stats["crash_classes"].get(key, 0) + 1
+                    chk.violation(key, f"{mname} {dname!r} translated by {v} ({why}): element {x['uuid']} did not move by exactly that vector",
+                                  dict(replay, before=x, after=y))
+                    break
+            va, vb = snap["viewport"], nsnap["viewport"]
+            if va is not None and (vb is None or not (abs(vb[0][0] - va[0][0] - v[0]) <= eps and abs(vb[0][1] - va[0][1] - v[1]) <= eps
+                                                      and abs(vb[1][0] - va[1][0]) <= eps and abs(vb[1][1] - va[1][1]) <= eps)):
+                chk.violation(f"diagram-origin:viewport:{mname}:{dname}", f"{mname} {dname!r} translated by {v} ({why}): viewport {va} -> {vb}", replay)
+            soundness(chk, mname, dname, nsnap, routing, {}, prefix="diagram-origin", context=replay, where=f" translated by {v} ({why})", eps=eps)
+        if feats["edge end"]:
+            stats["origin_diagrams_with_edges"] = stats.get("origin_diagrams_with_edges", 0) + 1
+            stats["origin_min_edge_end_offsets_per_diagram"] = min(stats.get("origin_min_edge_end_offsets_per_diagram", n_end), n_end)
+
+
+def load_in_memory(capellambse, aird, kw):
+    """the model at aird and the notation:Diagram element of every diagram in the loader's own trees"""
     m = capellambse.MelodyModel(str(aird), **kw)
     datas = {}
     for tr in m._loader.trees.values():
         for data in gmf_diagrams(tr.root):
             datas[data.getparent().getparent().get("uid")] = data
+    return m, datas
+
+
+def run_perturbed(chk, D, capellambse, mname, m, datas, dinfos, routing, stats):
+    """Move single top-level nodes of the stored layout (in memory, on the loaded scratch copy `m`) by the offsets of
+    perturbation_offsets and parse again: the parse must succeed, stay geometrically sound, leave unrelated elements
+    alone and move the node by exactly the displacement."""
+    quick = chk.tier == "quick"
+    rng = chk.rng
     budget = 9000 if quick else 15000          # per model
     per_diagram = max(30, budget // max(1, len(dinfos)))
     reasons = stats.setdefault("perturbation_reasons", {})
@@ -1026,7 +1314,17 @@ def run_diagrams(chk: lib.Check):
             # ---- moving single nodes into special relative positions derived from the stored geometry
             tree.write(str(dst), xml_declaration=True, encoding="UTF-8")      # the layout at rest (the tree is restored after every write)
             try:
-                run_perturbed(chk, D, capellambse, mname, dst, kw1, dinfos, routing, stats)
+                mem, datas = load_in_memory(capellambse, dst, kw1)
+            except Exception as e:  # noqa: BLE001
+                chk.broken.append(f"harness: cannot load the scratch copy of {mname}: {type(e).__name__}: {e}")
+                continue
+            # ---- translating the whole layout so that the origin lands on / next to the diagram's own features
+            try:
+                run_origin_translations(chk, D, mem, datas, mname, dinfos, routing, stats)
+            except Exception as e:  # noqa: BLE001
+                chk.broken.append(f"harness: origin-translation stream on {mname}: {type(e).__name__}: {e}")
+            try:
+                run_perturbed(chk, D, capellambse, mname, mem, datas, dinfos, routing, stats)
             except Exception as e:  # noqa: BLE001
                 chk.broken.append(f"harness: perturbation stream on {mname}: {type(e).__name__}: {e}")
     chk.coverage["diagrams"] = stats
